@@ -61,7 +61,7 @@ def gen(rng, n, tier):
             elif r < 0.85 and not exact:
                 ops.append(["partial", rng.choice([0, 1]), rng.choice(["T", "F"])])
             elif r < 0.93:
-                ops.append(["bad", rng.choice(["h*h", "h/h", "c/h", "array", "h*=h"])])
+                ops.append(["bad", rng.choice(["h*h", "h/h", "c/h", "array", "h*=h", "h*h/free", "h/h/free", "h*=h/free", "h/=h/free"])])
             else:
                 kind = rng.choice(["pyint", "pyfloat"]); ops.append(["mul", Fr(2), kind, "rev"])
         if exact: eps = Fr(0)
@@ -104,7 +104,16 @@ def impl(case):
                     inplace = op[2] == "T"; r = h.partial_normalize(op[1], inplace=inplace)
                 else:
                     w = op[1]
-                    if w == "h*h": r = h * h
+                    if w.endswith("/free"):      # two histograms are never multiplied or divided, free arithmetics or not
+                        from physt.config import config
+                        with config.enable_free_arithmetics():
+                            if w == "h*h/free": r = h * h.copy()
+                            elif w == "h/h/free": r = h / h.copy()
+                            elif w == "h*=h/free":
+                                r = h; r *= h.copy()
+                            else:
+                                r = h; r /= h.copy()
+                    elif w == "h*h": r = h * h
                     elif w == "h/h": r = h / h
                     elif w == "c/h": r = 2 / h
                     elif w == "h*=h":
